@@ -69,6 +69,9 @@ def plan(tier, seed):
             jobs.append({"name": "small%02d" % i, "spec": {"kind": "small", "curves": ch}})
     for i in range(17):
         jobs.append({"name": "ship%02d" % i, "spec": {"kind": "shipped", "curve": i}})
+    tests = ["test_jacobi.py", "test_ellipticcurve.py", "test_ecdh.py"] if tier == "quick" else ["test_jacobi.py", "test_ellipticcurve.py", "test_ecdh.py", "test_pyecdsa.py", "test_keys.py", "test_ecdsa.py", "test_malformed_sigs.py"]
+    for t in tests:
+        jobs.append({"name": "suite_" + t[5:-3], "spec": {"kind": "suite", "test": t}})
     return jobs
 
 
@@ -77,7 +80,7 @@ def mandatory_bins(tier):
          "double", "negate", "scalar_mul_all_0_to_2n_plus_1", "scalar_mul_precompute_path", "scalar_mul_without_order", "mul_add", "affine_point_arithmetic", "mixed_jacobi_affine", "equality_across_representations",
          "anomalous_curve_n_eq_p", "curve_a_zero", "curve_a_minus_3", "curve_p_1_mod_4",
          "shipped_curve", "kG_vs_openssl", "kQ_vs_openssl", "mul_add_vs_openssl", "negation_scale_combination", "scalar_n", "scalar_n_plus_1", "scalar_2^k", "scalar_2^k-1", "ecdh_vs_openssl", "ecdh_edge_scalar",
-         "invalid_off_curve", "invalid_coordinate_ge_p", "invalid_congruent_coordinate_ge_p", "invalid_zero_zero", "invalid_other_curve_point", "invalid_infinity"]
+         "invalid_off_curve", "invalid_coordinate_ge_p", "invalid_congruent_coordinate_ge_p", "invalid_zero_zero", "invalid_other_curve_point", "invalid_infinity", "repository_suite_under_group_law_monitor"]
     return b
 
 
@@ -464,7 +467,56 @@ def run_shipped(ns, ctx, spec):
     ctx.sample({"kind": "shipped", "curve": cv.name, "d": hex(d)})
 
 
+def run_suite(ctx, spec):
+    """the repository's own (hypothesis-driven) tests run on a SCRATCH COPY with the group-law monitor of
+    bvm/suite_monitor_conftest.py wrapped around PointJacobi.__add__/double/__mul__/mul_add"""
+    import json
+    import os
+    import shutil
+    import subprocess
+    import tempfile
+
+    from ..load import REPO
+
+    here = os.path.dirname(os.path.dirname(os.path.abspath(__file__)))
+    tmp = tempfile.mkdtemp(prefix="c17-suite-", dir=os.environ.get("VERIF_SCRATCH"))
+    try:
+        subprocess.run("git -C %s ls-files -z | (cd %s && xargs -0 -I{} cp --parents {} %s)" % (REPO, REPO, tmp), shell=True, check=True)
+        pkg = os.path.join(tmp, "appnotes", "register_crypto_plugin", "ecdsa")
+        shutil.copy(os.path.join(here, "suite_monitor_conftest.py"), os.path.join(pkg, "conftest.py"))
+        out = os.path.join(tmp, "monitor.json")
+        env = dict(os.environ, BVM_MONITOR_OUT=out, BVM_VERIF=os.path.dirname(here), PYTHONDONTWRITEBYTECODE="1")
+        env.pop("VERIF_REPO", None)
+        p = subprocess.run([sys_executable(), "-B", "-m", "pytest", "-q", "--no-header", "-p", "no:cacheprovider", "--timeout=1800", "--hypothesis-seed=%d" % ctx.seed, os.path.join("appnotes", "register_crypto_plugin", "ecdsa", spec["test"])],
+                           cwd=tmp, env=env, stdout=subprocess.PIPE, stderr=subprocess.STDOUT, text=True, timeout=3000)
+        if not os.path.exists(out):
+            ctx.note("suite_monitor_produced_no_output")
+            raise RuntimeError("suite monitor wrote nothing: " + p.stdout[-500:])
+        st = json.load(open(out))
+    finally:
+        shutil.rmtree(tmp, ignore_errors=True)
+    n = st["add"] + st["double"] + st["mul"] + st["mul_add"]
+    ctx.ev(max(1, n))
+    ctx.bin("repository_suite_under_group_law_monitor")
+    for k in ("add", "double", "mul", "mul_add"):
+        ctx.mon("suite_hook:" + k, st[k])
+        ctx.distinct("suite", spec["test"], k, st[k])
+    ctx.note("suite_ops_on_other_curves_not_judged", st.get("skipped_other_curve", 0))
+    for v in st["violations"]:
+        ctx.violation("group_law_broken_inside_repository_test_suite:" + v["what"], dict(v["detail"], test=spec["test"]), {"kind": "suite", "test": spec["test"]})
+    ctx.sample({"kind": "suite", "test": spec["test"], "operations_checked": {k: st[k] for k in ("add", "double", "mul", "mul_add")}})
+
+
+def sys_executable():
+    import os
+    import sys
+
+    return "/venv/bin/python" if os.path.exists("/venv/bin/python") else sys.executable
+
+
 def run_shard(spec, ctx):
+    if spec["kind"] == "suite":
+        return run_suite(ctx, spec)
     ns = load()
     if spec["kind"] == "small":
         run_small(ns, ctx, spec)
